@@ -29,6 +29,19 @@ def cases(ctx):
                         L.append(G.NOFIRE)
                         L.append(G.op(0, opk[0], key, *opk[1:]))
                         out.append((("op", w[0], depth, present, opk[0], size), L))
+    # the same through a handle that has just run maintenance on the key's shard (its in-memory load
+    # estimate of that shard is as high as it gets): the next writes still list nothing
+    for w in (("sharded", 4, 400000), ("sharded", 2, 1200)):
+        for opk in (("set", "V", 1), ("put", "V", 1)):
+            for size in [10, 100, 600]:
+                L = G.header(w, (), "none")
+                d = G.key_path(w, "w", key).rsplit("/", 1)[0]
+                L.append("mkdir " + d)
+                L.append("mkdir " + G.key_path(w, "w", key, 1).rsplit("/", 1)[0])
+                for i in range(size):
+                    L.append(G.plant("%s/f%04d" % (d, i), "x", mtime=G.T0 + i))
+                L += [G.FIRE, G.op(0, "set", ("warm", 7, 9), "W", 1), G.NOFIRE, G.op(0, opk[0], key, *opk[1:])]
+                out.append((("op", "sharded-%d-after-maintenance" % w[2], 1, False, opk[0], size), L))
     # descriptor peaks, maintenance included: ensure / get_or_update / set / put with the trigger firing
     for w in (("plain", 2), ("sharded", 2, 4)):
         for chk in ("none", "byteeq"):
